@@ -163,18 +163,19 @@ var _ apihttp.ClientApi = (*simNodeAPI)(nil)
 // ---- the network --------------------------------------------------------------
 
 type reqRecord struct {
-	seq    int
-	at     time.Duration
-	done   time.Duration
-	host   string
-	method string
-	path   string
-	key    string
-	body   []byte
-	status int
-	err    string
-	resp   []byte
-	kind   string // write | read | health | discovery | store | alert | other
+	seq     int // global order of request starts and completions
+	doneSeq int
+	at      time.Duration
+	done    time.Duration
+	host    string
+	method  string
+	path    string
+	key     string
+	body    []byte
+	status  int
+	err     string
+	resp    []byte
+	kind    string // write | read | health | discovery | store | alert | other
 }
 
 type simHost struct {
@@ -185,16 +186,16 @@ type simHost struct {
 }
 
 type simHTTP struct {
-	mu      sync.Mutex
-	start   time.Time
-	hosts   map[string]*simHost
-	reqs    []reqRecord
-	seq     int
-	budget  int // round trips allowed for the current call (0 = unlimited)
-	inCall  int
-	tamper  func(host, path string, status int, body []byte) (int, []byte)
-	onReq   func(rec *reqRecord)
-	logf    func(format string, a ...interface{})
+	mu     sync.Mutex
+	start  time.Time
+	hosts  map[string]*simHost
+	reqs   []reqRecord
+	seq    int
+	budget int // round trips allowed for the current call (0 = unlimited)
+	inCall int
+	tamper func(host, path string, status int, body []byte) (int, []byte)
+	onReq  func(rec *reqRecord)
+	logf   func(format string, a ...interface{})
 }
 
 // callBudgetExceeded is thrown from RoundTrip when a single client call makes
@@ -261,6 +262,8 @@ func (n *simHTTP) RoundTrip(req *http.Request) (*http.Response, error) {
 		}
 		rec.done = time.Since(n.start)
 		n.mu.Lock()
+		n.seq++
+		rec.doneSeq = n.seq
 		n.reqs = append(n.reqs, rec)
 		cb := n.onReq
 		n.mu.Unlock()
